@@ -30,6 +30,7 @@ package main
 
 import (
 	"encoding/json"
+	"errors"
 	"flag"
 	"fmt"
 	"os"
@@ -40,6 +41,7 @@ import (
 	"sync/atomic"
 	"time"
 
+	iqueue "github.com/ecodeclub/ekit/internal/queue"
 	"github.com/ecodeclub/ekit/list"
 	"github.com/ecodeclub/ekit/queue"
 	"github.com/ecodeclub/ekit/syncx"
@@ -69,15 +71,15 @@ type object interface {
 
 func atoi(s string) int { v, _ := strconv.Atoi(s); return v }
 
+// qerr classifies by the library's sentinels (internal/queue, re-exported in part by package queue),
+// never by message text.
 func qerr(err error) string {
-	if err == nil {
-		return "ok"
-	}
-	m := err.Error()
 	switch {
-	case strings.Contains(m, "队列为空"):
+	case err == nil:
+		return "ok"
+	case errors.Is(err, iqueue.ErrEmptyQueue):
 		return "empty"
-	case strings.Contains(m, "超出最大容量"):
+	case errors.Is(err, iqueue.ErrOutOfCapacity):
 		return "full"
 	}
 	return vlib.Err(err)
